@@ -101,7 +101,11 @@ def sinks(I, r):
                 yield e, 'set_len', e.args[1]
             elif (e.callee.endswith('::reserve') or e.callee.endswith('::reserve_exact') or e.callee.endswith('::try_reserve') or e.callee.endswith('::try_reserve_exact')) and e.args:
                 yield e, 'reserve(additional)', e.args[-1]
-            elif e.callee.endswith('alloc_layout') or e.callee.endswith('alloc_layout_fast') or e.callee.endswith('Alloc::alloc') or e.callee.endswith('Alloc::realloc') or e.callee == 'alloc::alloc::alloc':
+            elif e.callee.endswith('Layout::from_size_align') and e.args:
+                # the validating constructor sees only the product: a wrapped product is a valid (small) size
+                yield e, 'Layout::from_size_align(size)', e.args[0]
+            elif e.callee.endswith('alloc_layout') or e.callee.endswith('alloc_layout_fast') or e.callee.endswith('Alloc::alloc') or e.callee.endswith('Alloc::realloc') or e.callee == 'alloc::alloc::alloc' \
+                    or (e.extra.get('trait_path') or '') in ('alloc::Alloc::alloc', 'alloc::Alloc::realloc', 'alloc::Alloc::alloc_zeroed'):
                 if len(e.args) > 1:
                     yield e, 'allocation(layout/size)', e.args[-1] if not e.callee.endswith('realloc') else e.args[-1]
                 elif e.args:
@@ -119,14 +123,13 @@ def reserved_before(r, e, node):
     return False
 
 
-def run(ctx, config='rel-all'):
-    db = ctx.db(config)
-    ctx.assume("64-bit target only (alloc_guard's 32-bit branch is outside what is decided)", "RawVec invariant: cap * size_of::<T>() <= isize::MAX and len <= cap (established by the reserve family, rule R3)")
+def check_size_sinks(ctx, db, config, rule='R1', scope=lambda sp: sp.startswith('src/')):
+    """unchecked arithmetic reaching a size sink (shared with C13.R7 for vec.rs / raw_vec.rs)"""
     nsinks = nnodes = 0
     used_table = set()
     for b in db.fn_bodies():
         sp = b.get('span') or ''
-        if b['kind'] == 'closure' or not sp.startswith('src/'):
+        if b['kind'] == 'closure' or not scope(sp):
             continue
         try:
             I, r = arena.run_fn(ctx, b['id'], config)
@@ -146,7 +149,7 @@ def run(ctx, config='rel-all'):
                 seen.add((what, ns))
                 nnodes += 1
                 if n[1] in ('add',) and reserved_before(r, e, n):
-                    ctx.ok('R1', '%s %s: %s' % (fn, what, ns), 'len + n after reserve(n) on the same container')
+                    ctx.ok(rule, '%s %s: %s' % (fn, what, ns), 'len + n after reserve(n) on the same container')
                     continue
                 just = None
                 for (suffix, shape), reason in JUSTIFIED.items():
@@ -154,9 +157,75 @@ def run(ctx, config='rel-all'):
                         just = reason
                         used_table.add((suffix, shape))
                 if just:
-                    ctx.ok('R1', '%s %s: %s' % (fn, what, ns), 'tabled invariant: ' + just)
+                    ctx.ok(rule, '%s %s: %s' % (fn, what, ns), 'tabled invariant: ' + just)
                 else:
-                    ctx.violation('R1', fn, '%s:%s' % (what, ns), 'the size reaching %s in %s contains the unchecked operation %s: no checked_* / Layout::array success on this path, no preceding reserve, and no tabled invariant covers it — an overflowing request would wrap instead of being refused' % (what, fn, ns), e.span)
+                    ctx.violation(rule, fn, '%s:%s' % (what, ns), 'the size reaching %s in %s contains the unchecked operation %s: no checked_* / Layout::array success on this path, no preceding reserve, and no tabled invariant covers it — an overflowing request would wrap instead of being refused' % (what, fn, ns), e.span)
+    return nsinks, nnodes, used_table
+
+
+# unchecked Layout construction sites: (function suffix) -> why (size, align) is a valid Layout there
+UNCHECKED_LAYOUT_OK = {
+    "RawVec::<'a, T>::current_layout": 'RawVec invariant: cap * size_of::<T>() with align_of::<T>() is the layout of the live allocation',
+    "RawVec::<'a, T>::double": 'error-reporting path: new_size = 2 * cap * size passed alloc_guard (<= isize::MAX) and elem sizes are multiples of their alignment',
+    "RawVec::<'a, T>::shrink_to_fit": 'live allocation / amount <= cap asserted first: amount * size <= cap * size, a multiple of align_of::<T>()',
+    'Layout as alloc::UnstableLayoutMethods>::repeat': 'std fork: padded_size * n went through checked_mul; padded size is a multiple of align',
+    'alloc::Alloc::realloc': "unsafe fn contract of the Alloc trait: the caller guarantees new_size is valid for layout.align()",
+    'alloc::Alloc::realloc_excess': "unsafe fn contract of the Alloc trait: the caller guarantees new_size is valid for layout.align()",
+}
+
+
+def check_unchecked_layouts(ctx, db, config, rule='R5', scope=lambda sp: sp.startswith('src/')):
+    """Layout::from_size_align_unchecked skips the validity check (size rounded up to align <= isize::MAX, align a power of
+    two): every site must rebuild an existing Layout, sit under the Ok fact of the validating constructor for the same
+    operands, or be a tabled instance with its invariant.  (An invalid Layout aborts debug builds and is UB in release.)"""
+    n = 0
+    for b in db.fn_bodies():
+        sp = b.get('span') or ''
+        if b['kind'] == 'closure' or not scope(sp):
+            continue
+        if not any((db.callee_path(t) or '').endswith('from_size_align_unchecked') for bi, t in db.calls(b)):
+            continue
+        I, r = arena.run_fn(ctx, b['id'], config)
+        fn = arena.short(b['id'])
+        for e in r.events:
+            if len(e.stack) != 1 or e.kind != 'layout_unchecked' or len(e.args) < 2:
+                continue
+            n += 1
+            size, align = e.args[0], e.args[1]
+            why = None
+            if size[0] == 'app' and size[1] == 'size' and align == ('app', 'align', size[2]):
+                why = 'rebuilds the existing Layout %s' % show(size[2])[:40]
+            if why is None:
+                for f in e.state.facts:
+                    if f[0] == 'is' and f[2] in ('Ok', 'Continue') and any(isinstance(t, tuple) and t and t[0] == 'app' and t[1] == 'layout_result' and t[2] == size and t[3] == align for t in subterms(f[1])):
+                        why = 'under the Ok fact of Layout::from_size_align for the same operands'
+            if why is None:
+                for suf, reason in UNCHECKED_LAYOUT_OK.items():
+                    if b['id'].replace('std::', 'core::').endswith(suf.replace('std::', 'core::')) or fn.endswith(suf):
+                        why = 'tabled: ' + reason
+            if why:
+                ctx.ok(rule, '%s: from_size_align_unchecked(%s, %s)' % (fn, norm_show(size)[:50], norm_show(align)[:30]), why)
+            else:
+                ctx.violation(rule, fn, 'unchecked-layout:%s' % norm_show(size)[:60], '%s builds a Layout with from_size_align_unchecked(%s, %s) but nothing on the path shows that the size rounded up to the alignment stays <= isize::MAX: an impossible size is accepted (debug builds abort on the precondition check, release builds hand an invalid Layout to the allocator)' % (fn, show(size)[:60], show(align)[:40]), e.span)
+    return n
+
+
+def run(ctx, config='rel-all'):
+    db = ctx.db(config)
+    ctx.assume("64-bit target only (alloc_guard's 32-bit branch is outside what is decided)", "RawVec invariant: cap * size_of::<T>() <= isize::MAX and len <= cap (established by the reserve family, rule R3)")
+    nsinks, nnodes, used_table = check_size_sinks(ctx, db, config)
+    for b in db.fn_bodies():
+        sp = b.get('span') or ''
+        if b['kind'] == 'closure' or not sp.startswith('src/'):
+            continue
+        m = b['meta']
+        if not (m.get('pub') and sp.startswith('src/lib.rs') and m.get('impl_adt') == 'Bump'):
+            continue
+        try:
+            I, r = arena.run_fn(ctx, b['id'], config)
+        except RecursionError:
+            continue
+        fn = arena.short(b['id'])
         # ---- R2 layouts handed to the arena
         m = b['meta']
         if m.get('pub') and sp.startswith('src/lib.rs') and m.get('impl_adt') == 'Bump':
@@ -172,6 +241,8 @@ def run(ctx, config='rel-all'):
     ctx.floor('R1.nodes', nnodes, 15, 'unchecked arithmetic nodes reaching a sink (table + reserve rule)')
     ctx.extra['table_entries_used'] = len(used_table)
     check_reserve_post(ctx, db, config)
+    nu = check_unchecked_layouts(ctx, db, config, 'R5')
+    ctx.floor('R5', nu, 7, 'unchecked Layout construction sites')
     # ---- R4 the arena's own size check: a huge (but valid) Layout must be refused by the bumping function, i.e. the
     # bumped pointer is proved to stay inside [data, old finger] with the block below the old finger (shared with C01.O2)
     from . import c01
